@@ -47,7 +47,7 @@ from .space import (
 UNSUPPORTED = (NotImplementedError, AssertionError, NotSupportedEditRequest)
 
 BOUNDS = {
-    "quick": dict(depth=2, state_cap=40, init_cap=6, args=2),
+    "quick": dict(depth=2, state_cap=40, init_cap=4, args=2),
     "thorough": dict(depth=3, state_cap=400, init_cap=24, args=3),
 }
 
